@@ -304,6 +304,7 @@ func (e *Engine) loopBackEdge(st *State, fr *Frame, li *loopInfo, pred *ssa.Basi
 
 func (e *Engine) invEnv(st *State, fr *Frame) *SpecEnv {
 	se := e.specEnv(st, e.entry, fr)
+	se.preferNames = true
 	return se
 }
 
@@ -768,6 +769,7 @@ func (e *Engine) runInstrs(st *State, fr *Frame, b *ssa.BasicBlock, pred *ssa.Ba
 			for _, r := range x.Results {
 				rs = append(rs, e.operand(st, fr, r))
 			}
+			e.lastRet = x.Results
 			e.runDefers(st, fr, func(st *State) {
 				fr.onReturn(st, fr, rs)
 			})
@@ -919,6 +921,10 @@ func (e *Engine) execSimple(st *State, fr *Frame, in ssa.Instruction, b *ssa.Bas
 				// values held in memory satisfy the representation invariants of their type
 				st.Assume(e.wellFormed(v, st.next))
 			}
+			if e.lastLoad == nil {
+				e.lastLoad = map[ssa.Value]*Loc{}
+			}
+			e.lastLoad[x] = loc
 			fr.regs[x] = v
 		case token.NOT:
 			fr.regs[x] = Val{T: rt, L: []Term{Not(a.L[0])}}
